@@ -630,8 +630,12 @@ def gen_history(rng, sid, s, n, profile="mixed"):
             ops.append("option %s %d" % (rng.choice(["soft_cursor", "_linear", "_vertical", "_horizontal", "foo"]), rng.randrange(2)))
         elif r < 0.96:
             ops.append("commit")
-        elif r < 0.975:
+        elif r < 0.972:
             ops.append("clear")
+        elif r < 0.978:
+            # the schema applied again (select_schema with the current id): composition and transient options go, text that was
+            # committed and not yet read stays
+            ops.append("schema " + sid)
         else:
             ops.append("read_commit")
     return ops
@@ -876,7 +880,7 @@ def eval_history(c, exe, ws, rows, sid, ops, monitor, tag="h"):
     script, index = make_script(rows, [(sid, ops)])
     rc, out, impl, model = run_both(c, exe, ws, script, tag)
     res = {"rc": rc, "impl": impl, "model": model, "first_diff": None, "first_viol": None, "log": out[-2500:] if rc else ""}
-    state = {}
+    state = {"sid": sid}
     if any("stall=1" in l for l in impl):
         # the process was stalled between a Shift / Control press and its release (harness): timing-dependent, inconclusive
         res["stalled"] = True
@@ -943,7 +947,7 @@ def session_check(c, pid, monitor, histories, rows_for, exe, ws, what_prop, repo
                         stats["commits"] += 1
                     if len(stats["samples"]) < 4 and o.get("menu") not in (None, "~") and j > 5:
                         stats["samples"].append({"schema": pending[h][0], "op": op, "observation": impl[i][:300]})
-                    why = monitor(states.setdefault(h, {}), op, o)
+                    why = monitor(states.setdefault(h, {"sid": pending[h][0]}), op, o)
                     if why and h not in bad_hist:
                         bad_hist[h] = ("viol", j, op, why)
                 if report_diffs and i < len(model) and impl[i] != model[i] and h not in bad_hist:
